@@ -484,6 +484,7 @@ class SymR:
         t = self.term()
         out = SymAbs(z3.If(t >= 0, t, -t))
         out.inner = self
+        out.sq = None
         return out
 
     # -- comparisons
@@ -567,8 +568,9 @@ class SymR:
 
 
 class SymAbs(SymR):
-    """|x| that remembers x, so that |x|**2 folds to x*x (no case split)"""
-    __slots__ = ('inner',)
+    """|x| that remembers x (real) or |z|^2 (complex), so that |x|**2 folds to
+    x*x / re^2+im^2 without a case split or a square-root variable"""
+    __slots__ = ('inner', 'sq')
 
 
 numbers.Real.register(SymR)
@@ -679,8 +681,11 @@ def _real_pow(base, e):
     if ec is not None:
         if ec.denominator == 1:
             n = int(ec)
-            if isinstance(base, SymAbs) and n % 2 == 0 and getattr(base, 'inner', None) is not None:
-                base = base.inner
+            if isinstance(base, SymAbs) and n % 2 == 0 and n > 0:
+                if getattr(base, 'sq', None) is not None:
+                    return base.sq if n == 2 else _real_pow(base.sq, n // 2)
+                if getattr(base, 'inner', None) is not None:
+                    base = base.inner
             if base.c is not None:
                 if n < 0 and base.c == 0:
                     raise ZeroDivisionError
@@ -726,7 +731,11 @@ def sym_sqrt(x):
         if rn * rn == n and rd * rd == d:
             return SymR(Fraction(rn, rd))
     c = ctx()
-    key = ('sqrt', x.term().get_id())
+    try:
+        poly, _prims = _poly(x.term(), c, for_trig=False)
+        key = ('sqrt', tuple(sorted(poly.items())))
+    except Exception:
+        key = ('sqrt', x.term().get_id())
     hit = c.bases.get(key)
     if hit is not None:
         return hit
@@ -1205,7 +1214,14 @@ class SymC:
             return abs(self.re)
         if self.re.c is not None and self.re.c == 0:
             return abs(self.im)
-        return sym_sqrt(self.re * self.re + self.im * self.im)
+        sq = self.re * self.re + self.im * self.im
+        r = sym_sqrt(sq)
+        if r.c is not None:
+            return r
+        out = SymAbs(r.term())
+        out.inner = None
+        out.sq = sq
+        return out
 
     def __pow__(self, e):
         if _is_array_like(e):
